@@ -99,6 +99,9 @@ def match_known(known, prop, oname, st, model):
     return None
 
 
+FULL_STRUCTURES_IN_QUICK = {"C01", "C03", "C04", "C10", "C12", "C13", "C15", "C16", "C17", "C19", "C20"}
+
+
 def run_property(prop, tier, seed, jobs):
     from tverif.engine import CONTRACTS
     from tverif import interp as _interp
@@ -113,8 +116,11 @@ def run_property(prop, tier, seed, jobs):
     both = tier == "thorough"
     tasks = []
     struct_counts = {}
+    # properties whose complete (thorough) structure set runs in well under a minute use it in the quick tier too: a sampled subset can drop exactly the one
+    # configuration a change needs (seed C13-5); the quick tier keeps its shorter solver time-outs and native sample counts
+    struct_tier = "thorough" if prop in FULL_STRUCTURES_IN_QUICK else tier
     for cid in cids:
-        sts = list(CONTRACTS[cid].structures(tier))
+        sts = list(CONTRACTS[cid].structures(struct_tier))
         struct_counts[cid] = len(sts)
         for st in sts:
             tasks.append((cid, st, tier, timeout_ms, both, seed))
@@ -272,7 +278,7 @@ def run_property(prop, tier, seed, jobs):
             "backends": backends, "solver_calls": solver_calls, "solver_time_s": round(solver_time, 3),
             "native_runs": native_runs, "native_failed": len(native_failed),
             "undecided": len(undecided), "failed": len(failed), "skipped_modular_proofs": {k: len(v) for k, v in sk_names.items()}, "known_findings_hit": sorted(set(knownhits)),
-            "notes": sorted(notes)[:50], "bounds": meta.get("bounds", {}).get(tier, meta.get("bounds", "")),
+            "notes": sorted(notes)[:50], "bounds": meta.get("bounds", {}).get(struct_tier, meta.get("bounds", "")) if isinstance(meta.get("bounds"), dict) else meta.get("bounds", ""),
             "exhaustive": False,
         },
         "assumptions": meta.get("assumptions", []),
